@@ -106,7 +106,9 @@ def check(rep, tier, seed):
     # scaling
     cases, expect = [], []
     for st, sh, data in base:
-        for c in (Fraction(1, 2), 3, 1000, Fraction(1, 1048576)):
+        for c in (Fraction(1, 2), 3, 1000, Fraction(1, 1048576), Fraction(1, 2**1040), Fraction(1, 2**1060)):
+            if c < Fraction(1, 2**1000) and st not in DEG0:
+                continue          # totals below 1/f64::MAX: the scale-free statistics must not notice; the others would be subnormal
             d2 = [repr(float(Fraction(x) * c)) if isinstance(c, Fraction) else str(x * c) for x in data]
             r = refv[(st, tuple(sh), tuple(data))]
             if st in DEG0:
